@@ -5,7 +5,7 @@ cd /verif
 IDS=${@:-$(ls -d seeded/*/ | xargs -n1 basename)}
 mkdir -p .cache/logs/seeds
 for id in $IDS; do
-  P=$(echo $id | sed -E 's/^c([0-9]+)_.*/C\1/')
+  P=$(python3 -c "import json;print(json.load(open('/verif/seeded/$id/meta.json'))['property'])")
   git -C /repo checkout -q -- . 
   if ! git -C /repo apply /verif/seeded/$id/patch.diff; then echo "$id $P APPLY-FAILED" >> .cache/logs/seeds/summary-$T.txt; continue; fi
   s=$(date +%s)
